@@ -1,5 +1,6 @@
 import Proofs.Lemmas.SSZTree
 import Proofs.Lemmas.SSZHtrSpec
+import Proofs.Lemmas.SSZBacking
 import Proofs.Lemmas.SSZCanonical
 import Zrnt.Gen.SszFacts
 /-!
@@ -128,6 +129,69 @@ theorem tree_set_leaves (H : Hash2) (d : Nat) (t : CTree) (p : List Bool) (c : C
     (hp : CTree.Perfect d t) (hl : p.length = d) :
     (t.setLeaf H p c).leaves = t.leaves.set (CTree.pathIndex p) c :=
   leaves_set H d t p c hp hl
+
+/-! ## The three hand-built backings denote the tree of the typed value
+
+zrnt installs three subtrees without going through the typed view API: `SeedRandao` (all mixes = the seed),
+`ParticipationRegistryView.FillZeroes` (all flags zero) — both through ztyp's `SubtreeFillToLength`, modelled
+by `CTree.fillToLength` — and the rotation of the pending attestations / participation registries through
+`SetBacking` (a subtree of the state is replaced by another subtree). -/
+
+/-- **`SeedRandao`**: the vector backing built by `SubtreeFillToLength(seed, CoverDepth(n), n)` has valid caches
+and reports the hash-tree-root of `Vector[Bytes32, n]` holding `n` copies of the seed. -/
+theorem seedRandao_eq (H : Hash2) (seed : Bytes) (hs : seed.length = 32) (n : Nat) (hn : 0 < n) :
+    let t := CTree.fillToLength H seed (ceilLog2 n) n
+    t.Valid H ∧ t.cachedRoot = htr H (.vector (.bytesN 32) n) (.seq (List.replicate n (.bytes seed))) := by
+  refine ⟨fillToLength_valid H seed _ n, ?_⟩
+  rw [fillToLength_root H seed _ n hn (le_two_pow_ceilLog2 n)]
+  have hleaf : htr H (.bytesN 32) (.bytes seed) = seed := by
+    have hp : pack seed = [seed] := by
+      simp [pack, hs, packN, padTo32, List.take_of_length_le (Nat.le_of_eq hs)]
+    simp only [htr, hp]
+    simp [merkleize, merkleizeFrom, chunkCount, ceilLog2]
+  have hvec : htr H (.vector (.bytesN 32) n) (.seq (List.replicate n (.bytes seed)))
+      = merkleize H (List.replicate n seed) (ceilLog2 n) := by
+    simp only [htr, Ty.isBasic, Bool.false_eq_true, ↓reduceIte, List.map_replicate]
+    have hleaf' : merkleize H (pack seed) (ceilLog2 (chunkCount 32 1)) = seed := by simpa [htr] using hleaf
+    rw [hleaf']
+  rw [hvec, merkleize_eq_merkleizeSpec H _ _ (by simpa using le_two_pow_ceilLog2 n)]
+
+/-- **`FillZeroes(length)`**: the list backing `Pair(SubtreeFillToLength(zero, depth, ceil(length/32)), length)`
+reports the hash-tree-root of `List[uint8, limit]` holding `length` zero flags (`0 < length ≤ limit`;
+`length = 0` is outside the domain of `SubtreeFillToLength`, see the fix of `FillZeroes(0)`). -/
+theorem fillZeroes_eq (H : Hash2) (lim length : Nat) (h0 : 0 < length) (hl : length ≤ lim) :
+    mixInLength H (CTree.fillToLength H zeroChunk (ceilLog2 (chunkCount lim 1)) ((length + 31) / 32)).cachedRoot length
+      = htr H (.list (.uint 1) lim) (.seq (List.replicate length (.num 0))) := by
+  have hnodes : (length + 31) / 32 ≤ 2 ^ ceilLog2 (chunkCount lim 1) := by
+    apply two_pow_mono
+    unfold chunkCount
+    omega
+  rw [fillToLength_root H zeroChunk _ _ (by omega) hnodes]
+  have henc : ((List.replicate length (Val.num 0)).map (encode (.uint 1))).flatten = List.replicate length (0 : UInt8) := by
+    simp [encode, natToLE, List.map_replicate]
+  simp only [htr, Ty.isBasic, ↓reduceIte, henc, List.length_replicate, Ty.fixedLen, Ty.fixedLen?, Option.getD_some]
+  congr 1
+  rw [merkleize_eq_merkleizeSpec H _ _ (by rw [pack_length]; simpa using hnodes)]
+  congr 1
+  simp only [pack, List.length_replicate]
+  exact (packN_zeros _ length (by omega)).symm
+
+/-- **Rotation through `SetBacking`**: replacing, in the tree over the field roots of a state, the root at
+position `i` by the root at position `j` and the root at position `j` by the root `fresh` of a freshly built
+subtree (what `ProcessParticipationRecordUpdates` / `ProcessParticipationFlagUpdates` do with
+`previous := current; current := empty`) leaves valid caches, and the reported state root is the root over
+the rotated field-root list, i.e. the container root of the rotated value. -/
+theorem rotation_eq (H : Hash2) (d : Nat) (roots : List Chunk) (pi pj : List Bool) (cur fresh : Chunk) :
+    let t := setMany H (CTree.build H d roots) [(pi, cur), (pj, fresh)]
+    t.Valid H ∧ t.cachedRoot = treeRoot H d t.leaves ∧
+      (pi.length = d → pj.length = d →
+        t.leaves = (((CTree.build H d roots).leaves.set (CTree.pathIndex pi) cur).set (CTree.pathIndex pj) fresh)) := by
+  intro t
+  refine ⟨setMany_valid H _ _ (build_valid H d roots), (tree_root_after_sets H d roots _).2, ?_⟩
+  intro hi hj
+  have hp := build_perfect H d roots
+  show (((CTree.build H d roots).setLeaf H pi cur).setLeaf H pj fresh).leaves = _
+  rw [leaves_set H d _ pj fresh (set_perfect H d _ pi cur hp) hj, leaves_set H d _ pi cur hp hi]
 
 /-! ## Non-vacuity -/
 
